@@ -18,7 +18,8 @@ CHECKS = {
          "(inmem, small-history inmem, bbolt with three marshalers, Filter, real gRPC) and every recorded step "
          "(error-predicate vector, write-back, full contents) is judged by TLC against the specification; concurrent "
          "real-thread histories are accepted only if TLC finds linearization points (TraceStoreLin). "
-         "Histories that start on a restarted persistent-backed state whose first access is made by two clients at once (one parked inside the backing store's Load) are driven and judged too (TracePersist raceread).",
+         "Histories that start on a restarted persistent-backed state whose first access is made by two clients at once (one parked inside the backing store's Load) are driven and judged too (TracePersist raceread). "
+         "The access-rule wrapper state.Filter has its own specification (Filter.tla): the rule is consulted exactly once per call with the access the call makes, denied calls never reach the wrapped state, allowed calls are transparent.",
     note="Trusted: TLC, the Go projection of resources/errors (harness/vh). Real-thread histories sample schedules, "
          "they do not enumerate them; bounded domains (2 ids x 2 namespaces x 2 types, 3 owners, 2 finalizers).",
     technique="TLA+ sequential spec + TLC model checking; model-based replay and TLC trace validation (incl. linearizability acceptor)",
@@ -40,7 +41,8 @@ CHECKS = {
     text="Same model and judge as C02; the driver additionally resumes from every bookmark ever delivered (single and kind "
          "watches), tries malformed / foreign-incarnation / ahead / too-old bookmarks and every tail size 1..MaxCap+2 after "
          "each TLC-generated history; TLC decides accept/reject (BookmarkAccepted), the invalid-bookmark class, the exact "
-         "resumed suffix and the exact tail contents; the ring model proves RecentBookmarksAccepted and AcceptedBookmarkRetained.",
+         "resumed suffix and the exact tail contents; the ring model proves RecentBookmarksAccepted and AcceptedBookmarkRetained. "
+         "BootstrapBookmark combined with tail / start-from-bookmark is part of model, generator, judge and driver (the initial Noop carries the bookmark right before the first replayed event).",
     note="Trusted: TLC, bookmark position decoding in the harness (last 8 bytes big endian). Tail+selector combinations not driven.",
     technique="TLA+ ring model + TLC model checking; model-based replay with exhaustive resume/tail probes; TLC trace validation",
     ref="5.12"),
@@ -78,7 +80,8 @@ CHECKS = {
          "policy (Backoff.tla) for reset/growth. TLC-simulated command sequences drive the real queue (verif facade) in a "
          "synctest bubble in virtual time, and TLC-generated reconcile outcome sequences (ok/error/panic/requeue with and "
          "without error/skip) drive a probe QController on the real runtime; both traces are judged by TLC (TraceQueue, "
-         "TraceBackoff: exact requeue intervals, randomised back-off envelope, reset on success).",
+         "TraceBackoff: exact requeue intervals, randomised back-off envelope, reset on success). "
+         "Release / Requeue on an already released handle (the runtime's own deferred Release after Requeue) are part of the command sequences and must be no-ops.",
     note="Trusted: TLC, synctest virtual time, the verif facade (type aliases only). Order among simultaneously due items is "
          "not part of the property; randomised back-off is checked against its envelope only.",
     technique="TLA+ queue/back-off models + TLC; model-based replay in virtual time; TLC trace validation",
@@ -107,7 +110,8 @@ CHECKS = {
          "an explicit owner) and emits it; every row (thorough) or a seeded quarter (quick) is executed through the real "
          "runtime adapters of a probe Controller / QController, with cached and uncached kinds, and the recorded outcome class "
          "and resulting value are judged by TLC (TraceAccess.tla). "
-         "Output tracking (StartTrackingOutputs / CleanupOutputs) is modelled in OutTrack.tla (exact victims, foreign resources untouched, failed cleanup keeps the tracker, panics on misuse, restart discards the tracker), checked exhaustively, and random walks of it are replayed through a probe controller with every command judged by TraceOutTrack.",
+         "Output tracking (StartTrackingOutputs / CleanupOutputs) is modelled in OutTrack.tla (exact victims, foreign resources untouched, failed cleanup keeps the tracker, panics on misuse, restart discards the tracker), checked exhaustively, and random walks of it are replayed through a probe controller with every command judged by TraceOutTrack. "
+         "The change rate limit (WithChangeRateLimit) is a token bucket (RateLimit.tla, window bound checked by TLC); call sequences with idle gaps are issued in virtual time and the bucket is replayed per call: every mutating call, allowed or denied, takes one token and waits exactly as long as the policy says, reads take none. UpdateInputs must not alias the caller's slice.",
     note="Trusted: TLC, the error classification of harness/vh (an access denial is an unclassifiable error). One namespace; "
          "write rate limiting not exercised.",
     technique="TLA+ access matrix + TLC enumeration; exhaustive matrix replay through the real adapters; TLC trace validation",
@@ -133,7 +137,8 @@ CHECKS = {
          "judges that reads issued before Bootstrapped block and then return the complete contents, later reads return the "
          "current contents, contexts are cancelled iff the resource is/was torn down, removed or absent (TraceCache). "
          "Black box: runtime schedules with cached kinds; cached reads after every step must be version-monotone per "
-         "incarnation, controllers reading through the cache must not lose wake-ups, and cached = uncached at the quiet point.",
+         "incarnation, controllers reading through the cache must not lose wake-ups, and cached = uncached at the quiet point. "
+         "A filtered List running concurrently with one cache mutation (a hook in the cached resources' Metadata() lets the mutation land in the middle of the scan) must return the contents at one instant.",
     note="Trusted: as C05. Filtered cached lists are exercised by C14's selector table at the cache site.",
     technique="TLA+ cache model + pipeline model, TLC; white-box and black-box replay; TLC trace validation",
     ref="5.15"),
@@ -145,7 +150,8 @@ CHECKS = {
          "returns the watch error (and no error on plain cancel), no reconcile activity and no leaked goroutine after Run "
          "returned; restart sequences (error / panic / reset) of a controller, a run hook and a task judged against the "
          "back-off envelope with a fresh reconcile after every restart (TraceBackoff). "
-         "Failing queue items of a QController (error, panic, requeue with and without interval, including RequeueError(err, 0)) are driven and judged against the back-off envelope with the nothing-lost rule (stage shared with C09 b).",
+         "Failing queue items of a QController (error, panic, requeue with and without interval, including RequeueError(err, 0)) are driven and judged against the back-off envelope with the nothing-lost rule (stage shared with C09 b). "
+         "pkg/task is specified in TaskRunner.tla (registry / live goroutines under StartTask, StopTask, Reconcile, Stop, bodies finishing, failing, panicking) and random walks are replayed on a real task.Runner with the set of executing task instances judged after every command; the output-tracking stage (panic between StartTrackingOutputs and CleanupOutputs) is shared with C08.",
     note="Trusted: as C05; goroutine leak measured by process goroutine count inside the bubble.",
     technique="TLA+ pipeline/back-off models + TLC; fault-schedule replay in virtual time; TLC trace validation",
     ref="5.16"),
@@ -167,7 +173,8 @@ CHECKS = {
     text="Same models and executions as C06, judged on the totally ordered log of successful writes recorded by a proxy between "
          "everybody and the store: after EVERY write, an output owned by the controller exists only while its input exists and "
          "carries the controller's finalizer, and an output is destroyed only from tearing-down phase with no finalizers "
-         "(TraceLifecycle.tla, JUDGE=C07); the models check FinBeforeOut as an invariant.",
+         "(TraceLifecycle.tla, JUDGE=C07); the models check FinBeforeOut as an invariant. "
+         "An eighth configuration combines two cleanup handlers (cleanup.Combine) over two groups of dependents, a ninth uses WithIgnoreTeardownWhile.",
     note="Trusted: the recording proxy serialises writes around the store call (commit order). Cleanup controllers "
          "(cleanup.NewController + RemoveOutputs) are modelled (LifecycleCL.tla) and driven as configuration CL; the controller's own "
          "writes can be parked and stepped so external operations land between any two of them. Known finding for the ignore-teardown options is listed.",
@@ -230,7 +237,8 @@ CHECKS = {
          "key does, guards (double initialise, overwrite, last slot), every single edit is detected by the next retrieval on "
          "every slot. TLC-simulated sequences run on the real KeyStorage with freshly generated x25519 PGP key pairs, the "
          "adversary editing the MarshalBinary output through the public protobuf message; TLC replays every step on the model "
-         "and judges success/failure of every API call and equality of the recovered master key (TraceKeyStorage.tla).",
+         "and judges success/failure of every API call and equality of the recovered master key (TraceKeyStorage.tla). "
+         "The integrity tag is also stripped, truncated and zeroed.",
     note="Trusted: TLC, gopenpgp. Composite adversarial edits without a retrieval in between (e.g. renaming a slot = copy + "
          "remove, which the HMAC cannot see because slot ids are not hashed) are outside the property's single-corruption quantifier.",
     technique="TLA+ key storage model with adversary + TLC; model-based replay on the real KeyStorage; TLC trace validation",
